@@ -89,6 +89,10 @@ def run_py(script, arg_json, timeout=600):
     env["UXARRAY_VERIF"] = "1"
     env.setdefault("NUMBA_DISABLE_JIT", "1")
     env["PYTHONPATH"] = VERIF + os.pathsep + os.path.join(VERIF, "harness")
+    alt = os.environ.get("VERIF_REPO")
+    if alt and os.path.abspath(alt) != "/repo":
+        # development aid only (seed sweeps on scratch worktrees); registered commands always run against /repo
+        env["PYTHONPATH"] = os.path.abspath(alt) + os.pathsep + env["PYTHONPATH"]
     try:
         out = subprocess.run([VENV_PY, os.path.join(VERIF, "harness", script), p], capture_output=True, text=True,
                              timeout=timeout, env=env, cwd=VERIF)
